@@ -96,8 +96,8 @@ struct Alphabet {
   }
 };
 // ops: 0..2 setAnchor(A_i); 3 reset; 4..6 toENU(geodetic G_j); 7..9 toENU(wgs84 G_j); 10..12 toENU(ecef of G_j); 13,14 toECEF(P_k); 15,16 toWGS84(P_k); 17 getters
-const int NOPS = 20;   // 18: assign the converter to another long-lived converter and continue with that one; 19: continue with a copy-constructed converter
-std::string opname(int op) { char b[48]; if (op < 3) snprintf(b, 48, "setAnchor(A%d)", op); else if (op == 3) snprintf(b, 48, "reset()"); else if (op < 7) snprintf(b, 48, "toENU(geodetic G%d)", op - 4); else if (op < 10) snprintf(b, 48, "toENU(wgs84 G%d)", op - 7); else if (op < 13) snprintf(b, 48, "toENU(ecef G%d)", op - 10); else if (op < 15) snprintf(b, 48, "toECEF(P%d)", op - 13); else if (op < 17) snprintf(b, 48, "toWGS84(P%d)", op - 15); else if (op == 17) snprintf(b, 48, "getters"); else if (op == 18) snprintf(b, 48, "other = converter; use other"); else snprintf(b, 48, "use a copy-constructed converter"); return b; }
+const int NOPS = 21;   // 18: assign the converter to another long-lived converter and continue with that one; 19: continue with a copy-constructed converter
+std::string opname(int op) { char b[48]; if (op < 3) snprintf(b, 48, "setAnchor(A%d)", op); else if (op == 3) snprintf(b, 48, "reset()"); else if (op < 7) snprintf(b, 48, "toENU(geodetic G%d)", op - 4); else if (op < 10) snprintf(b, 48, "toENU(wgs84 G%d)", op - 7); else if (op < 13) snprintf(b, 48, "toENU(ecef G%d)", op - 10); else if (op < 15) snprintf(b, 48, "toECEF(P%d)", op - 13); else if (op < 17) snprintf(b, 48, "toWGS84(P%d)", op - 15); else if (op == 17) snprintf(b, 48, "getters"); else if (op == 18) snprintf(b, 48, "other = converter; use other"); else if (op == 19) snprintf(b, 48, "use a copy-constructed converter"); else snprintf(b, 48, "setAnchor(getAnchor())"); return b; }
 
 void sequences(vf::Ctx& c, int depth, int init, int firstOp) {
   static Alphabet al;
@@ -123,7 +123,8 @@ void sequences(vf::Ctx& c, int depth, int init, int firstOp) {
       auto params = [&]() { std::vector<std::string> h; h.push_back(init ? "ENUConverter(A" + std::to_string(init - 1) + ")" : "ENUConverter()"); for (int j = 0; j <= i; ++j) h.push_back(opname(seq[j])); return vf::JO().strs("history", h).done(); };
       bool ok = true;
       Eigen::Vector3d out(0, 0, 0); bool hasOut = false; L3 want(0, 0, 0);
-      if (op == 18) { *other = *cur; std::swap(cur, other); }
+      if (op == 20) { if (!m.anchored) break; conv.setAnchor(conv.getAnchor()); }   // the argument aliases the converter's own state; the anchor must not change
+      else if (op == 18) { *other = *cur; std::swap(cur, other); }
       else if (op == 19) { std::unique_ptr<ENUConverter> cp(new ENUConverter(*cur)); other = std::move(cur); cur = std::move(cp); }
       else if (op < 3) { conv.setAnchor(al.A[op]); m.anchored = true; m.a = al.A[op]; }
       else if (op == 3) { conv.reset(); m.anchored = false; }
@@ -204,6 +205,9 @@ void anchor_trajectory(vf::Ctx& c, int start) {
 uint64_t vf_ncases(const std::string& tier) { return anchors().size() + 4 * NOPS + 4 + 4; }
 
 void vf_run(uint64_t idx, const std::string& tier, vf::Ctx& c) {
+  {   // the first geodetic conversion of every process is made by a converter on another ellipsoid (International 1924): process-wide state must not leak into ENU
+    ECEFConverter hayford(EarthEllipsoid(6378388.0, 6356911.946)); GeodeticCoordinates g0 = hayford.toWGS84(hayford.toECEF(makeGeodeticCoordinates(0.8, 0.05, 300.0))); (void)g0;
+  }
   size_t na = anchors().size();
   if (idx < na) lattice(c, idx);
   else if (idx >= na + 4 * NOPS + 4) anchor_trajectory(c, (int)(idx - na - 4 * NOPS - 4));
@@ -214,7 +218,7 @@ std::string vf_describe(const std::string& tier) {
   vf::JO o;
   o.u("anchors", anchors().size()).str("anchor_lattice", "lat {-85,-60,-30,-1e-6,0,33.3,45,60,85} deg x lon {-180,-179.999,-90,0,2.5,90,179.999,180} deg x h {-500,0,300,9000} m");
   o.str("local_points", "{0,+-1,+-100,+-1e4,+-1e5}^2 x {0,+-100,+-1e4} m");
-  o.i("sequence_depth", tier == "thorough" ? 5 : 4).str("sequence_ops", "20 operations (setAnchor x3, reset, toENU geodetic x3 / wgs84 x3 / ecef x3, toECEF x2, toWGS84 x2, getters, assign to another long-lived converter and continue with it, continue with a copy-constructed converter) from 4 initial constructions; const conversions only when the model says anchored; plus, from each construction, a fixed script of 30 operations and every variant with ONE position replaced by any operation");
+  o.i("sequence_depth", tier == "thorough" ? 5 : 4).str("sequence_ops", "21 operations (setAnchor(getAnchor()) with the argument aliasing the converter, setAnchor x3, reset, toENU geodetic x3 / wgs84 x3 / ecef x3, toECEF x2, toWGS84 x2, getters, assign to another long-lived converter and continue with it, continue with a copy-constructed converter) from 4 initial constructions; const conversions only when the model says anchored; plus, from each construction, a fixed script of 30 operations and every variant with ONE position replaced by any operation");
   o.str("anchor_trajectories", "one converter re-anchored 12 times per (step, direction) on anchors {1e-12,2.5e-10,7e-10,1e-9,4e-9,1e-8,1e-6,1e-4} rad (6 um .. 640 m) apart, north / east / up / north-east, from 4 starts: anchor stored, frame bit-equal to a fresh converter, anchor maps to the origin within 1 um");
   o.str("oracle", "frame = (east,north,up) from the definition within 1e-12; conversions within 1e-6 m of the long-double reference; state after every step equals a fresh converter anchored at the model anchor (bitwise)");
   return o.done();
